@@ -405,6 +405,7 @@ func runC15(t *testing.T, r *engine.Run) {
 	// ---- the interleaving of the per-type streams
 	order := []string{"node", "svc", "pod", "slice"}
 	podSeen, svcSeen := map[string]bool{}, map[string]bool{}
+	svcHidden, sliceWhileHidden := map[string]bool{}, false
 	total := 0
 	for _, q := range k.q {
 		total += len(q)
@@ -440,7 +441,13 @@ func runC15(t *testing.T, r *engine.Run) {
 			}
 		case *corev1.Service:
 			svcSeen[o.Name] = ev.verb != "delete"
+			svcHidden[o.Name] = ev.verb != "delete" && o.Annotations["networking.istio.io/exportTo"] == "~"
 		case *discoveryv1.EndpointSlice:
+			if svcHidden[o.Labels[discoveryv1.LabelServiceName]] {
+				// the input class of known finding "hid": a slice event handled while its Service is exported to nobody
+				sliceWhileHidden = true
+				r.Probe("slice_event_while_service_hidden")
+			}
 			for _, e := range o.Endpoints {
 				if ev.verb != "delete" && !podSeen[e.TargetRef.Name] {
 					r.Probe("endpoint_before_its_pod")
@@ -542,7 +549,11 @@ func runC15(t *testing.T, r *engine.Run) {
 		return
 	}
 	if got := shardDump(inst, hiddenAtEnd); got != coldShards {
-		r.Fail("c15.endpoints_differ", classifyShardDiff(got, coldShards), "endpoint index after the event history differs from a cold start on the final objects:\n-- history --\n%s\n-- cold --\n%s", got, coldShards)
+		key := classifyShardDiff(got, coldShards)
+		if sliceWhileHidden {
+			key += "+hid"
+		}
+		r.Fail("c15.endpoints_differ", key, "endpoint index after the event history differs from a cold start on the final objects:\n-- history --\n%s\n-- cold --\n%s", got, coldShards)
 		return
 	}
 	hv := c.heldView()
